@@ -102,7 +102,7 @@ Wrap(t, w) ==
   IN Finalize(S.lines, S.cur)
 
 \* ------------------------------------------------------------------ A-layer state
-VARIABLES inp,      \* [n, hdr, rows, style, T, ind, al]: the table, the style, terminal width, indentation, alignments
+VARIABLES inp,      \* [n, hdr, rows, style, T, ind, al]: the table, the style, terminal width, indentation, alignments (AlignOf)
           pc,       \* "classify" | "distribute" | "draw" | "done" | "fail" | "skip"
           colLen,   \* CellWrapper._column_lengths
           cellLen,  \* CellWrapper._cell_lengths
@@ -183,6 +183,17 @@ Distribute(up) ==
              /\ ties' = IF tie THEN ties + 1 ELSE ties
              /\ pc' = IF later = {} THEN "draw" ELSE "distribute"
   /\ UNCHANGED <<inp, out>>
+
+\* ------------------------------------------------------------------ column alignments (TableStyle)
+\* calls = the sequence of set_column_alignment(col, a) calls made on the style (col 0-based, a: 0 left, 1 right,
+\* 2 centred), in the order they were made.  The style keeps a list; setting a column beyond its end grows the list
+\* with the default alignment (left); get_column_alignments(n) overlays the list on n defaults.
+SetColumn(lst, col, a) ==
+  LET grown == IF col > Len(lst) - 1 THEN lst \o [j \in 1..(col - Len(lst) + 1) |-> 0] ELSE lst
+  IN [grown EXCEPT ![col + 1] = a]
+AlignList(calls) == FoldLeft(LAMBDA lst, c : SetColumn(lst, c[1], c[2]), <<>>, calls)
+\* (a list longer than the table has columns makes get_column_alignments raise IndexError: callers keep col < n)
+AlignOf(n, calls) == LET lst == AlignList(calls) IN [k \in 1..n |-> IF k <= Len(lst) THEN lst[k] ELSE 0]
 
 \* ------------------------------------------------------------------ drawing (BorderUtil)
 Render(i, w, cl) ==
